@@ -1877,7 +1877,10 @@ def _get_cell_info(
 
     # Show primitive matrix overwrite message
     phpy_yaml: PhonopyYaml = cell_info.get("phonopy_yaml")
-    if phpy_yaml is not None:
+    if phpy_yaml is not None and not (
+        phpy_yaml.unitcell.magnetic_moments is not None
+        and _auto_primitive_axes(cell_info["primitive_matrix"])
+    ):
         yaml_filename = cell_info["optional_structure_info"][0]
         pmat_in_settings = _get_primitive_matrix(
             cell_info["primitive_matrix"], phpy_yaml.unitcell
